@@ -280,7 +280,8 @@ def unit_kernel(cone, dim, world):
       D = [z3.Real(f"D{i}") for i in range(6)]
       valid = And(cid >= 0, cmp("<", cid, ncon), adr >= 0)
       ref = [ite(valid, arith("-", D[0], kt.pre("contact_adhesion_in", cid)), 0.0)] + [ite(valid, D[i], 0.0) for i in range(1, 6)]
-      ctx.assume("pyramidal + to_world_frame: _decode_pyramid replaced by its contract (result = the value the local-frame unit proves equal to mju_decodePyramid); its call arguments are proved to be (njmax, efc_force[worldid], efc_address[c,0], friction[c], dim[c])")
+      sess.add(And(*[D[i] == 0 for i in range(dim, 6)]))  # mju_decodePyramid leaves components >= dim zero
+      ctx.assume("pyramidal + to_world_frame: _decode_pyramid replaced by its contract (result = the value the local-frame unit proves equal to mju_decodePyramid, components >= condim are 0); its call arguments are proved to be (njmax, efc_force[worldid], efc_address[c,0], friction[c], dim[c])")
       if len(calls) != 1:
         ctx.error(f"expected one _decode_pyramid call, saw {len(calls)}")
         return
